@@ -1172,6 +1172,19 @@ class Exec:
                 yield st1, (c if isinstance(op, ast.In) else z3.Not(c))
             return
         if isinstance(op, (ast.Is, ast.IsNot)):
+            def _cls_term(x):
+                if isinstance(x, FuncVal) and x.kind == "dynclass" and x.recv is not None:
+                    return heapops.class_of(st.heap, x.recv.v)
+                if isinstance(x, FuncVal) and x.kind == "class" and x.name in decl.CLASSES:
+                    return z3.IntVal(decl.CLASSES[x.name].id)
+                return None
+
+            ca, cb = _cls_term(a), _cls_term(b)
+            if ca is not None and cb is not None:
+                # identity of class objects: x.__class__ is y.__class__ / x.__class__ is C
+                r = ca == cb
+                yield st, (r if isinstance(op, ast.Is) else z3.Not(r))
+                return
             if isinstance(a, FuncVal) or isinstance(b, FuncVal) or isinstance(a, PyObj) or isinstance(b, PyObj):
                 raise Unsupported("`is` on function objects")
             r = ops.identity(a, b)
